@@ -6,15 +6,13 @@
 import LiquidModel.Model.Find
 namespace Liquid
 
-def isDigit (c : Char) : Bool := '0' ≤ c && c ≤ '9'
-
 /-- does `s` match `IntegerLiteral = @{ ("+" | "-")? ~ ASCII_DIGIT+ }` completely? -/
 def matchesIntegerLiteral (s : Str) : Bool :=
   let ds := match s with
     | '+' :: r => r
     | '-' :: r => r
     | _ => s
-  !ds.isEmpty && ds.all isDigit
+  !ds.isEmpty && ds.all Char.isDigit
 
 inductive LitOutcome where
   | value (v : V)
